@@ -12,6 +12,7 @@ Local Open Scope Z_scope.
 Inductive xnum := XNaN | XNInf | XFin (z : Z) | XPInf.
 
 Definition SCALE : Z := 2 ^ 1074.
+Global Arguments SCALE : simpl never.
 
 (* harness literal: mantissa and binary exponent, e + 1074 >= 0 for every double *)
 Definition mk (m e : Z) : xnum := XFin (Z.shiftl m (e + 1074)).
